@@ -13,3 +13,46 @@ package rtpav1
 //@   assert[C03]@call:finalizeCurPacket#1 (arg(0) ==> len(obu) < obuLen) && (!arg(0) ==> len(obu) == obuLen)
 //@   assert[C03]@call:createNewPacket#2 (arg(0) ==> len(obu) < obuLen) && (!arg(0) ==> len(obu) == obuLen)
 //@   modifies *
+
+// --- decoder (C08) -------------------------------------------------------------------------
+// What the decoder keeps between calls is bounded: the partial OBU and the OBUs of the current
+// temporal unit never exceed the maximum temporal unit size, and at most 10 OBUs are kept.
+//@ typeinv Decoder d
+//@   inv[C08] 0 <= d.fragmentsSize && d.fragmentsSize <= 3145728
+//@   inv[C08] 0 <= d.frameBufferLen && d.frameBufferLen <= 10
+//@   inv[C08] 0 <= d.frameBufferSize && d.frameBufferSize <= 3145728
+
+//@ func joinFragments
+//@   opt safety-tag=C08
+//@   requires size >= 0 && size <= 4194304
+//@   ensures[C08] len(ret) == size
+//@   modifies fresh
+//@   loop 1
+//@     invariant _i >= 0 && 0 <= n && n <= size && len(ret) == size && fresh(ret)
+
+//@ func tuSize
+//@   opt safety-tag=C08
+//@   ensures[C08] ret >= 0
+//@   modifies nothing
+//@   loop 1
+//@     invariant _i >= 0 && s >= 0
+
+//@ func (d *Decoder) resetFragments
+//@   opt typeinv=off
+//@   ensures[C08] d.fragmentsSize == 0 && len(d.fragments) == 0
+//@   modifies d.fragments, d.fragmentsSize
+
+//@ func (d *Decoder) decodeOBUs
+//@   opt safety-tag=C08
+//@   requires pkt != nil && len(pkt.Payload) <= 65535
+//@   ensures[C08] err == nil ==> len(ret) >= 1
+//@   ensures[C08] d.frameBufferLen == old(d.frameBufferLen) && d.frameBufferSize == old(d.frameBufferSize)
+//@   modifies *
+//@   loop 1
+//@     invariant (len(payload) >= 1 || len(obus) >= 1) && (obus == nil || fresh(obus)) && len(payload) <= 65535
+//@     invariant forall j :: 0 <= j && j < len(obus) ==> len(obus[j]) <= 65535
+
+//@ func (d *Decoder) Decode
+//@   opt safety-tag=C08
+//@   requires pkt != nil && len(pkt.Payload) <= 65535
+//@   modifies *
